@@ -445,6 +445,9 @@ type yieldIOCase struct {
 	Cap     int  `json:"cap"`
 	Times   int  `json:"times"`
 	Do      bool `json:"do"` // DoNotation instead of CorNewGenerics+Start
+	// After: once the coroutine has finished (IsDone), the same handle evaluates the IO Times more times
+	// from a plain goroutine: YieldFromIO is an evaluator of the IO and uses nothing of the coroutine
+	After bool `json:"after"`
 }
 
 func runYieldIO(c yieldIOCase) (key, msg string, inconclusive bool) {
@@ -467,7 +470,9 @@ func runYieldIO(c yieldIOCase) (key, msg string, inconclusive bool) {
 		m.ObserveOn(h)
 	}
 	var got []int
+	var handle *fpgo.CorDef[int]
 	body := func(self *fpgo.CorDef[int]) int {
+		handle = self
 		for i := 0; i < c.Times; i++ {
 			got = append(got, self.YieldFromIO(m))
 		}
@@ -479,13 +484,21 @@ func runYieldIO(c yieldIOCase) (key, msg string, inconclusive bool) {
 		if c.Do {
 			var f fpgo.CorDef[int]
 			f.DoNotation(body)
-			return
+		} else {
+			fin := make(chan struct{})
+			var co *fpgo.CorDef[int]
+			co = fpgo.CorNewGenerics[int](func() { defer close(fin); body(co) })
+			co.Start()
+			<-fin
 		}
-		fin := make(chan struct{})
-		var co *fpgo.CorDef[int]
-		co = fpgo.CorNewGenerics[int](func() { defer close(fin); body(co) })
-		co.Start()
-		<-fin
+		if c.After {
+			if !vlib.WaitUntil(vlib.StallBudget(), handle.IsDone) {
+				return
+			}
+			for i := 0; i < c.Times; i++ {
+				got = append(got, handle.YieldFromIO(m))
+			}
+		}
 	}()
 	select {
 	case <-done:
@@ -494,8 +507,15 @@ func runYieldIO(c yieldIOCase) (key, msg string, inconclusive bool) {
 	}
 	mu.Lock()
 	defer mu.Unlock()
-	if runs != c.Times {
-		return "C11/yieldFromIO/effect-count", fmt.Sprintf("%d YieldFromIO calls ran the effect %d times", c.Times, runs), false
+	calls := c.Times
+	if c.After {
+		calls *= 2
+		if !handle.IsDone() {
+			return "", "", true
+		}
+	}
+	if runs != calls {
+		return "C11/yieldFromIO/effect-count", fmt.Sprintf("%d YieldFromIO calls ran the effect %d times", calls, runs), false
 	}
 	for i, v := range got {
 		if v != 101+i {
@@ -518,7 +538,7 @@ func TestYieldFromIO(t *testing.T) {
 	}
 	vlib.Check(t, "yieldFromIO", 300, 3000, func(t *rapid.T) {
 		c := yieldIOCase{Handler: rapid.IntRange(0, 3).Draw(t, "handler") > 0, Cap: rapid.SampledFrom([]int{0, 1, 4}).Draw(t, "cap"),
-			Times: rapid.IntRange(1, 4).Draw(t, "times"), Do: rapid.Bool().Draw(t, "do")}
+			Times: rapid.IntRange(1, 4).Draw(t, "times"), Do: rapid.Bool().Draw(t, "do"), After: rapid.IntRange(0, 2).Draw(t, "after") == 0}
 		vlib.S().Eval("yieldFromIO")
 		if c.Handler {
 			vlib.S().NonTrivial("yieldFromIO", fmt.Sprintf("%+v", c))
